@@ -376,6 +376,105 @@ def compare(case, real, model, mode, exact_state=True, close_times=False):
 
 
 # ------------------------------------------------------------------------------------------
+# execution in the three modes and resolution of the model answers (shared by C07 and C08)
+def exec_groups(ctx, groups_by_mode):
+    """execute all cases; numpy in-process, numba in fresh interpreters (S: NUMBA_DISABLE_JIT=1, J: JIT)"""
+    results = {}
+    for mode, groups in groups_by_mode.items():
+        flat = [c for g in groups for c in g]
+        if not flat:
+            continue
+        if mode == "numpy":
+            res = [execute(c) for c in flat]
+        else:
+            env = {"NUMBA_DISABLE_JIT": "1"} if mode == "numba-S" else {"NUMBA_DISABLE_JIT": "0"}
+            env["NUMBA_NUM_THREADS"] = "1"
+            res = execute_many(flat, env=env, procs=ctx.budget(8, 16))
+        it = iter(res)
+        results[mode] = [[next(it) for _ in g] for g in groups]
+    return results
+
+
+def check_run(ctx, case, real, batch, pending):
+    """queue the model request(s) for one executed run"""
+    mode = case["numbers"]
+    if isinstance(real, str) or real.get("error"):
+        ctx.disagree("correspondence", case, "run completes", real if isinstance(real, str) else real["error"],
+                     "real run raised on a valid case")
+        return
+    orc = needs_oracle(case, mode)
+    for i in orc:
+        # answers replayed as an oracle must themselves be a geometric schedule (C09's monitor)
+        if not geometric_answers_ok(case["trackers"][i]["sched"], real["sched_log"][i]):
+            ctx.disagree("correspondence", case, "geometric schedule", real["sched_log"][i][:20],
+                         f"answers of the geometric interrupt of tracker {i} are not a geometric schedule")
+    i1 = batch.add("c07.run", model_request(case, mode, oracle_answers(real, orc)))
+    i2 = None
+    if mode == "F":
+        # the same float inputs through the exact model: how often do exact and IEEE arithmetic part ways?
+        allg = [i for i, tr in enumerate(case["trackers"]) if tr["sched"]["kind"] == "geometric"]
+        i2 = batch.add("c07.run", model_request(case, "Q", oracle_answers(real, allg)))
+    pending.append((case, real, i1, i2))
+
+
+def resolve(ctx, pending, answers, batch2):
+    """compare; geometric mismatches in exact mode are retried with the recorded answers as oracle"""
+    retry = []
+    for case, real, i1, i2 in pending:
+        ctx.impl_traces += 1
+        st, val = answers[i1]
+        if st != "ok":
+            ctx.disagree("correspondence", case, f"model error: {val}", None)
+            continue
+        d = compare(case, real, val, case["numbers"], exact_state=case["solver"] == "euler")
+        if d is not None and case["numbers"] == "F" and case.get("jit"):
+            d = compare(case, real, val, "F", close_times=True)
+            if d is None:
+                ctx.hist("numba-J", "differs from the Float model in the last bits (fused multiply-add)")
+        if d is not None:
+            geo = [i for i, tr in enumerate(case["trackers"]) if tr["sched"]["kind"] == "geometric"]
+            if geo and case["numbers"] == "Q":
+                j = batch2.add("c07.run", model_request(case, "Q", oracle_answers(real, geo)))
+                retry.append((case, real, j, d))
+            else:
+                ctx.disagree("correspondence", case, d.get("model"), d.get("impl"), d["what"])
+        if i2 is not None:
+            st2, val2 = answers[i2]
+            if st2 == "ok":
+                same = (val2["steps"] == val["steps"] and len(val2["trace"]) == len(val["trace"])
+                        and all(a[0] == b[0] and abs(float(unq(a[1])) - unfbits(b[1])) <= 1e-9 * max(1.0, abs(unfbits(b[1])))
+                                for a, b in zip(val2["trace"], val["trace"])))
+                ctx.hist("exact-vs-float model", "same trace" if same else "parted at a rounding tie")
+    return retry
+
+
+def resolve_retry(ctx, retry, answers2):
+    for case, real, j, d in retry:
+        st, val = answers2[j]
+        d2 = compare(case, real, val, "Q", exact_state=case["solver"] == "euler") if st == "ok" else {"what": f"model error {val}"}
+        geo_ok = all(geometric_answers_ok(case["trackers"][i]["sched"], real["sched_log"][i])
+                     for i, tr in enumerate(case["trackers"]) if tr["sched"]["kind"] == "geometric")
+        if d2 is None and geo_ok:
+            ctx.hist("geometric", "float log/ceil tie: replayed as oracle")
+        else:
+            ctx.disagree("correspondence", case, d.get("model"), d.get("impl"), d["what"] + " (geometric; oracle replay: " + str(d2 and d2["what"]) + ")")
+
+
+def geometric_answers_ok(s, log):
+    """C09's monitor for the recorded geometric answers: on the lattice, not before the query, increasing"""
+    prev = None
+    for _k, t, a in log:
+        if math.isinf(a) or a <= 0:
+            return False
+        k = math.log(a / s["scale"]) / math.log(s["factor"])
+        if abs(k - round(k)) > 1e-7 * max(1.0, abs(k)) or a < t - 1e-12 * abs(t) or (prev is not None and not a > prev):
+            return False
+        prev = a
+    return True
+
+
+
+# ------------------------------------------------------------------------------------------
 # reference quantities for the monitors (independent of the Lean model)
 def rate_shift(case):
     return TIME_SHIFT[case["solver"]] * case["dt"]
